@@ -992,6 +992,9 @@ pub struct FfiServer {
 
 impl FfiServer {
     pub fn create(rt: &FfiRuntime, level: ffi::DecodeLevel) -> Result<FfiServer, String> {
+        Self::create_with(rt, level, 8)
+    }
+    pub fn create_with(rt: &FfiRuntime, level: ffi::DecodeLevel, max_sessions: u16) -> Result<FfiServer, String> {
         let seen: Arc<Mutex<ServerSeen>> = Default::default();
         unsafe {
             let map = ffi::rodbus_device_map_create();
@@ -1015,7 +1018,7 @@ impl FfiServer {
             let port = free_port();
             let mut out: *mut rodbus_ffi::Server = std::ptr::null_mut();
             let ip = cstr("127.0.0.1");
-            let rc = ffi::rodbus_server_create_tcp(rt.0, ip.as_ptr(), port, filter, 8, map, level, &mut out);
+            let rc = ffi::rodbus_server_create_tcp(rt.0, ip.as_ptr(), port, filter, max_sessions, map, level, &mut out);
             ffi::rodbus_address_filter_destroy(filter);
             ffi::rodbus_device_map_destroy(map);
             if rc != 0 || out.is_null() {
@@ -1052,6 +1055,49 @@ fn roundtrip(s: &mut TcpStream, tx: u16, unit: u8, pdu: &[u8]) -> Result<Vec<u8>
             return Ok(f.pdu.clone());
         }
     }
+}
+
+/// max_sessions passes through the C ABI unchanged: with n sessions allowed, the (n+1)-th
+/// connection closes the first one and nothing else (what the Rust API does, C15)
+fn max_sessions_passthrough(rep: &mut SearchReport) -> Result<(), String> {
+    let frt = FfiRuntime::new(2)?;
+    for n in [1u16, 2, 3, 5] {
+        let case = json!({"table": "server_max_sessions", "max_sessions": n});
+        let srv = FfiServer::create_with(&frt, decode_level(0, 0, 0), n)?;
+        let mut conns: Vec<TcpStream> = Vec::new();
+        for _ in 0..=n {
+            let s = TcpStream::connect(("127.0.0.1", srv.port)).map_err(|e| format!("INFRA: connect {}", e))?;
+            s.set_nodelay(true).ok();
+            conns.push(s);
+            std::thread::sleep(Duration::from_millis(30));
+        }
+        rep.stats.evaluations += 1;
+        let mut verdict = None;
+        for (i, c) in conns.iter_mut().enumerate() {
+            let r = roundtrip(c, 100 + i as u16, 1, &[3, 0, 0, 0, 1]);
+            let alive = r.is_ok();
+            let expect_alive = i != 0;
+            if alive != expect_alive {
+                verdict = Some(format!(
+                    "{} sessions allowed, {} connections made: connection {} is {} ({:?})",
+                    n,
+                    n + 1,
+                    i,
+                    if alive { "still served" } else { "not served" },
+                    r.err()
+                ));
+                break;
+            }
+        }
+        srv.destroy();
+        if let Some(v) = verdict {
+            fail(rep, format!("{}: {}", case, v), case);
+            return Ok(());
+        }
+        rep.stats.nontrivial_total += 1;
+        rep.stats.distinct.insert(crate::runner::hash_of(&format!("{}", case)));
+    }
+    Ok(())
 }
 
 fn server_table(rep: &mut SearchReport) -> Result<(), String> {
@@ -1436,10 +1482,305 @@ fn serial_settings_table(rep: &mut SearchReport) -> Result<(), String> {
     Ok(())
 }
 
+
+// ---------------------------------------------------------------------------------------------
+// TLS configuration passes through the C ABI unchanged: minimum version, certificate mode,
+// expected server name (and the '*' wildcard switch), certificate paths
+
+fn tls_config_table(rep: &mut SearchReport) -> Result<(), String> {
+    use crate::net::c09::{min_tls, path, peer_client_config, peer_server_config, Offer};
+    use crate::net::c16::{c_allow_index, c_allow_range, c_configure, c_noop, c_write_coil};
+    use tokio::io::{AsyncReadExt, AsyncWriteExt};
+    let rt = crate::net::rt(2);
+    let frt = FfiRuntime::new(2)?;
+    let long = Duration::from_secs(3);
+    let offers = [Offer::V12, Offer::V13, Offer::Both];
+    let p = |name: &str, ext: &str| cstr(path(name, ext).to_str().unwrap());
+
+    // ---- the C ABI creates the client
+    // (mode, dns_name, allow wildcard, configured peer certificate, certificate the peer presents, valid)
+    let client_cases: [(&str, &str, bool, &str, &str, bool); 9] = [
+        ("authority", "test.com", false, "ca1", "server_ok", true),
+        ("authority", "other.com", false, "ca1", "server_ok", false),
+        ("authority", "test.com", true, "ca1", "server_othername", false),
+        ("authority", "*", true, "ca1", "server_othername", true),
+        ("authority", "*", false, "ca1", "server_ok", false),
+        ("authority", "test.com", false, "ca1", "server_ca2", false),
+        ("authority", "test.com", false, "ca2", "server_ca2", true),
+        ("self-signed", "ignored.example", false, "ss_server", "ss_server", true),
+        ("self-signed", "test.com", false, "ss_server", "ss_server_other", false),
+    ];
+    for min in [12u8, 13] {
+        for offer in offers {
+            for (mode, dns, wildcard, configured, presented, valid) in client_cases {
+                let case = json!({"table": "tls_config", "c_abi_creates": "client", "min_version": format!("1.{}", min - 10), "peer_offers": offer.name(),
+                    "mode": mode, "dns_name": dns, "allow_server_name_wildcard": wildcard, "peer_cert_path": configured, "peer_presents": presented});
+                // what the Rust API says about the same configuration
+                let rust_cfg = if mode == "authority" {
+                    let name = if wildcard && dns == "*" { None } else { Some(dns.to_string()) };
+                    rodbus::client::TlsClientConfig::full_pki(name, &path(configured, "pem"), &path("client_operator", "pem"), &path("client_operator", "key"), None, min_tls(min))
+                } else {
+                    rodbus::client::TlsClientConfig::self_signed(&path(configured, "pem"), &path("ss_client", "pem"), &path("ss_client", "key"), None, min_tls(min))
+                };
+                // the peer
+                let (port, server) = rt.block_on(async {
+                    let listener = tokio::net::TcpListener::bind("127.0.0.1:0").await.map_err(|e| format!("INFRA: {}", e))?;
+                    let port = listener.local_addr().unwrap().port();
+                    let acceptor = tokio_rustls::TlsAcceptor::from(peer_server_config(offer, presented));
+                    let server = tokio::spawn(async move {
+                        loop {
+                            let (tcp, _) = match listener.accept().await {
+                                Ok(x) => x,
+                                Err(_) => return,
+                            };
+                            let acceptor = acceptor.clone();
+                            tokio::spawn(async move {
+                                if let Ok(mut tls) = acceptor.accept(tcp).await {
+                                    let mut buf = [0u8; 256];
+                                    let mut acc = Vec::new();
+                                    loop {
+                                        let n = match tls.read(&mut buf).await {
+                                            Ok(0) | Err(_) => break,
+                                            Ok(n) => n,
+                                        };
+                                        acc.extend_from_slice(&buf[..n]);
+                                        let (frames, _) = crate::model::framing::deframe_mbap(&acc);
+                                        let mut used = 0;
+                                        for f in frames {
+                                            used += 7 + f.pdu.len();
+                                            if tls.write_all(&crate::model::framing::mbap_frame(f.tx, f.unit, &[3, 2, 0xBE, 0xEF])).await.is_err() {
+                                                return;
+                                            }
+                                        }
+                                        acc.drain(..used);
+                                    }
+                                }
+                            });
+                        }
+                    });
+                    Ok::<_, String>((port, server))
+                })?;
+                let (local, key) = if mode == "authority" { ("client_operator", "client_operator") } else { ("ss_client", "ss_client") };
+                let dns_c = cstr(dns);
+                let peer_c = p(configured, "pem");
+                let local_c = p(local, "pem");
+                let key_c = p(key, "key");
+                let pw = cstr("");
+                let tls_cfg = ffi::TlsClientConfig {
+                    dns_name: dns_c.as_ptr(),
+                    peer_cert_path: peer_c.as_ptr(),
+                    local_cert_path: local_c.as_ptr(),
+                    private_key_path: key_c.as_ptr(),
+                    password: pw.as_ptr(),
+                    min_tls_version: if min == 12 { ffi::MinTlsVersion::V12 } else { ffi::MinTlsVersion::V13 }.into(),
+                    certificate_mode: if mode == "authority" { ffi::CertificateMode::AuthorityBased } else { ffi::CertificateMode::SelfSigned }.into(),
+                    allow_server_name_wildcard: wildcard,
+                };
+                let states: StateLog = Default::default();
+                let mut out: *mut rodbus_ffi::ClientChannel = std::ptr::null_mut();
+                let host = cstr("127.0.0.1");
+                let rc = unsafe {
+                    ffi::rodbus_client_channel_create_tls(frt.0, host.as_ptr(), port, 4, retry_strategy(5000, 5000), tls_cfg, decode_level(0, 0, 0), state_listener(&states), &mut out)
+                };
+                rep.stats.evaluations += 1;
+                let mut verdict: Option<String> = None;
+                if (rc == 0) != rust_cfg.is_ok() {
+                    verdict = Some(format!(
+                        "the Rust API {} this configuration, the C call returned {:?}",
+                        if rust_cfg.is_ok() { "accepts" } else { "rejects" },
+                        ffi::ParamError::from(rc)
+                    ));
+                } else if rc == 0 {
+                    let expect = valid && offer.max() >= min;
+                    unsafe { ffi::rodbus_client_channel_enable(out) };
+                    let t0 = Instant::now();
+                    let mut connected = None;
+                    while t0.elapsed() < long && connected.is_none() {
+                        {
+                            let g = states.lock().unwrap();
+                            if g.iter().any(|s| s == "Connected") {
+                                connected = Some(true);
+                            } else if g.iter().any(|s| s.starts_with("WaitAfter")) {
+                                connected = Some(false);
+                            }
+                        }
+                        std::thread::sleep(Duration::from_millis(2));
+                    }
+                    let mut served = false;
+                    if connected == Some(true) {
+                        let sc = Scenario {
+                            op: Op::ReadHolding,
+                            unit: 1,
+                            start: 0,
+                            count: 1,
+                            seed: 0,
+                            timeout_ms: 1500,
+                        };
+                        let (rc2, slot) = ffi_submit(out, &sc);
+                        if rc2 == 0 {
+                            served = wait_slot(&slot, long) == vec![Got::Regs(vec![(0, 0xBEEF)])];
+                        }
+                    }
+                    if served != expect {
+                        verdict = Some(format!(
+                            "the channel was {} but the same configuration through the Rust API {} this peer (connection state seen: {:?})",
+                            if served { "served" } else { "not served" },
+                            if expect { "admits" } else { "refuses" },
+                            states.lock().unwrap().iter().take(4).collect::<Vec<_>>()
+                        ));
+                    }
+                }
+                if !out.is_null() {
+                    unsafe { ffi::rodbus_client_channel_destroy(out) };
+                }
+                server.abort();
+                if let Some(v) = verdict {
+                    fail(rep, format!("TLS configuration {}: {}", case, v), case);
+                    return Ok(());
+                }
+                rep.stats.nontrivial_total += 1;
+                rep.stats.distinct.insert(crate::runner::hash_of(&format!("{}", case)));
+            }
+        }
+    }
+    *rep.stats.labels.entry("tls_client_config_rows".to_string()).or_insert(0) += 2 * 3 * client_cases.len() as u64;
+
+    // ---- the C ABI creates the server
+    // (mode, authz, configured peer certificate, local certificate, certificate the client presents, valid)
+    let server_cases: [(&str, bool, &str, &str, &str, bool); 8] = [
+        ("authority", false, "ca1", "server_ok", "client_operator", true),
+        ("authority", false, "ca1", "server_ok", "client_ca2", false),
+        ("authority", false, "ca2", "server_ca2", "client_ca2", true),
+        ("authority", false, "ca1", "server_ok", "client_norole", true),
+        ("authority", true, "ca1", "server_ok", "client_norole", false),
+        ("authority", true, "ca1", "server_ok", "client_viewer", true),
+        ("self-signed", false, "ss_client", "ss_server", "ss_client", true),
+        ("self-signed", false, "ss_client", "ss_server", "ss_client_other", false),
+    ];
+    for min in [12u8, 13] {
+        for offer in offers {
+            for (mode, authz, configured, local, presented, valid) in server_cases {
+                let case = json!({"table": "tls_config", "c_abi_creates": "server", "min_version": format!("1.{}", min - 10), "peer_offers": offer.name(),
+                    "mode": mode, "authz": authz, "peer_cert_path": configured, "local_cert": local, "peer_presents": presented});
+                let mut server: *mut rodbus_ffi::Server = std::ptr::null_mut();
+                let mut port = 0u16;
+                unsafe {
+                    let filter = ffi::rodbus_address_filter_any();
+                    for _ in 0..8 {
+                        let map = ffi::rodbus_device_map_create();
+                        let handler = ffi::WriteHandler {
+                            write_single_coil: Some(c_write_coil),
+                            write_single_register: None,
+                            write_multiple_coils: None,
+                            write_multiple_registers: None,
+                            on_destroy: Some(c_noop),
+                            ctx: std::ptr::null_mut(),
+                        };
+                        let cfgcb = ffi::DatabaseCallback {
+                            callback: Some(c_configure),
+                            on_destroy: Some(c_noop),
+                            ctx: std::ptr::null_mut(),
+                        };
+                        ffi::rodbus_device_map_add_endpoint(map, 1, handler, cfgcb);
+                        port = free_port();
+                        let ip = cstr("127.0.0.1");
+                        let peer_c = p(configured, "pem");
+                        let local_c = p(local, "pem");
+                        let key_c = p(local, "key");
+                        let pw = cstr("");
+                        let tls_cfg = ffi::TlsServerConfig {
+                            peer_cert_path: peer_c.as_ptr(),
+                            local_cert_path: local_c.as_ptr(),
+                            private_key_path: key_c.as_ptr(),
+                            password: pw.as_ptr(),
+                            min_tls_version: if min == 12 { ffi::MinTlsVersion::V12 } else { ffi::MinTlsVersion::V13 }.into(),
+                            certificate_mode: if mode == "authority" { ffi::CertificateMode::AuthorityBased } else { ffi::CertificateMode::SelfSigned }.into(),
+                        };
+                        let rc = if authz {
+                            let auth = ffi::AuthorizationHandler {
+                                read_coils: Some(c_allow_range),
+                                read_discrete_inputs: Some(c_allow_range),
+                                read_holding_registers: Some(c_allow_range),
+                                read_input_registers: Some(c_allow_range),
+                                write_single_coil: Some(c_allow_index),
+                                write_single_register: Some(c_allow_index),
+                                write_multiple_coils: Some(c_allow_range),
+                                write_multiple_registers: Some(c_allow_range),
+                                on_destroy: Some(c_noop),
+                                ctx: std::ptr::null_mut(),
+                            };
+                            ffi::rodbus_server_create_tls_with_authz(frt.0, ip.as_ptr(), port, filter, 4, map, tls_cfg, auth, decode_level(0, 0, 0), &mut server)
+                        } else {
+                            ffi::rodbus_server_create_tls(frt.0, ip.as_ptr(), port, filter, 4, map, tls_cfg, decode_level(0, 0, 0), &mut server)
+                        };
+                        ffi::rodbus_device_map_destroy(map);
+                        if rc == 0 && !server.is_null() {
+                            break;
+                        }
+                    }
+                    ffi::rodbus_address_filter_destroy(filter);
+                }
+                if server.is_null() {
+                    return Err(format!("INFRA: could not create the C-ABI TLS server for {}", case));
+                }
+                let expect = valid && offer.max() >= min;
+                let served = rt.block_on(async {
+                    let connector = tokio_rustls::TlsConnector::from(peer_client_config(offer, Some(presented)));
+                    let tcp = match tokio::time::timeout(long, tokio::net::TcpStream::connect(("127.0.0.1", port))).await {
+                        Ok(Ok(t)) => t,
+                        _ => return Err("INFRA: connect to the C-ABI TLS server failed".to_string()),
+                    };
+                    let name = tokio_rustls::rustls::pki_types::ServerName::try_from("test.com").unwrap();
+                    let mut served = false;
+                    if let Ok(Ok(mut tls)) = tokio::time::timeout(long, connector.connect(name, tcp)).await {
+                        if tls.write_all(&crate::model::framing::mbap_frame(9, 1, &[3, 0, 0, 0, 1])).await.is_ok() {
+                            let mut buf = [0u8; 64];
+                            let mut got = Vec::new();
+                            loop {
+                                match tokio::time::timeout(long, tls.read(&mut buf)).await {
+                                    Ok(Ok(0)) | Ok(Err(_)) | Err(_) => break,
+                                    Ok(Ok(n)) => {
+                                        got.extend_from_slice(&buf[..n]);
+                                        if got.len() >= 11 {
+                                            break;
+                                        }
+                                    }
+                                }
+                            }
+                            served = got == crate::model::framing::mbap_frame(9, 1, &[3, 2, 0xBE, 0xEF]);
+                        }
+                    }
+                    Ok(served)
+                });
+                unsafe { ffi::rodbus_server_destroy(server) };
+                let served = served?;
+                rep.stats.evaluations += 1;
+                if served != expect {
+                    fail(
+                        rep,
+                        format!(
+                            "TLS configuration {}: the peer was {} but the same configuration through the Rust API {} it",
+                            case,
+                            if served { "served" } else { "not served" },
+                            if expect { "admits" } else { "refuses" }
+                        ),
+                        case,
+                    );
+                    return Ok(());
+                }
+                rep.stats.nontrivial_total += 1;
+                rep.stats.distinct.insert(crate::runner::hash_of(&format!("{}", case)));
+            }
+        }
+    }
+    *rep.stats.labels.entry("tls_server_config_rows".to_string()).or_insert(0) += 2 * 3 * server_cases.len() as u64;
+    Ok(())
+}
+
 pub fn c18_tables(ctx: &Ctx) -> SearchReport {
     let mut rep = SearchReport::empty(
         "c18_tables",
-        "differential tables, every row visited: (1) 8 client operations x {12 successes with random unit/range/values, each of the 256 exception codes, malformed reply, reply of another function, silence (timeout), close, malformed MBAP header} through the Rust API and through the extern \"C\" functions against the same scripted peer: identical request bytes on the wire, identical values, error reported as the same-named ffi::RequestError value, exactly one completion callback; (2) not connected / queue full (capacity 1, silent peer) / runtime destroyed: return code and exactly one callback; (3) 4 write callbacks x WriteResult {success, 9 standard exceptions, raw 0..255}: the raw TCP client must receive the echo or [fc|0x80, code]; (4) all 36 decode levels: log classes of a C-ABI server equal those of a Rust server at the same-named level; (5) configuration pass-through: reconnect waits of a C-ABI client with retry (40 ms, 130 ms) measured through its listener; 120 serial-setting combinations (baud x data bits x parity x stop bits x flow control): termios of a pty opened through the C ABI equals termios of a pty opened through the Rust API with the same-named values. Non-trivial = every row other than a plain success.",
+        "differential tables, every row visited: (1) 8 client operations x {12 successes with random unit/range/values, each of the 256 exception codes, malformed reply, reply of another function, silence (timeout), close, malformed MBAP header} through the Rust API and through the extern \"C\" functions against the same scripted peer: identical request bytes on the wire, identical values, error reported as the same-named ffi::RequestError value, exactly one completion callback; (2) not connected / queue full (capacity 1, silent peer) / runtime destroyed: return code and exactly one callback; (3) 4 write callbacks x WriteResult {success, 9 standard exceptions, raw 0..255}: the raw TCP client must receive the echo or [fc|0x80, code]; (4) all 36 decode levels: log classes of a C-ABI server equal those of a Rust server at the same-named level; (5) configuration pass-through: reconnect waits of a C-ABI client with retry (40 ms, 130 ms) measured through its listener; 120 serial-setting combinations (baud x data bits x parity x stop bits x flow control): termios of a pty opened through the C ABI equals termios of a pty opened through the Rust API with the same-named values; 54 TLS client and 48 TLS server configurations created through the C ABI (minimum version x versions the peer offers x certificate mode x expected name incl. the '*' switch x configured / presented certificates x authorization): created iff the Rust API accepts the same-named configuration, and a rustls peer is served iff the Rust API would serve it; max_sessions of a C-ABI server in {1,2,3,5}: one connection too many closes exactly the first. Non-trivial = every row other than a plain success.",
     );
     let steps: Vec<(&str, Box<dyn Fn(&mut SearchReport) -> Result<(), String>>)> = vec![
         ("client_table", Box::new({
@@ -1451,6 +1792,8 @@ pub fn c18_tables(ctx: &Ctx) -> SearchReport {
         ("decode_table", Box::new(decode_table)),
         ("retry_passthrough", Box::new(retry_passthrough)),
         ("serial_settings_table", Box::new(serial_settings_table)),
+        ("tls_config_table", Box::new(tls_config_table)),
+        ("max_sessions_passthrough", Box::new(max_sessions_passthrough)),
     ];
     for (name, f) in steps {
         let r = match guarded(|| f(&mut rep)) {
